@@ -300,7 +300,12 @@ def step (h : Hooks) (s0 : DS) (line : String) : DS × String :=
         (s1.push (compactVia s.cfg s.mk' s1.mdisk .fromIndex (parseOrder order) s.bs),
          if stale then some "load" else s1.staleEp)
     let s3 := { s2 with staleEp := stale }
-    if s.respec then ({ s3 with spec := st, respec := false }, pendingText s ++ "ok " ++ showIndex st)
+    if s.respec then
+      -- the file was cut by hand (a first crash): what this load returns is the new baseline — it is
+      -- on the disk, so a later crash must keep it, and the resumed session appends to it
+      let base := loadedEntries s.cfg s1.mdisk
+      ({ s3 with spec := st, respec := false, wr := base, synced := [(s3.mops.length, base)] },
+       pendingText s ++ "ok " ++ showIndex st)
     else (s3, pendingText s ++ "ok " ++ showIndex st ++ h.flagLoad s3 st)
   | "plant" :: rest =>
     match parseLogOp s rest with
